@@ -45,24 +45,26 @@ PROPS = {
         ],
     },
     "C01": {
-        "units": ["rpid"], "kani_complete": [], "kani_bounded_quick": [], "kani_bounded_thorough": [],
+        "units": ["rpid", "clt"], "kani_complete": [], "kani_bounded_quick": [], "kani_bounded_thorough": [],
         "design_ref": "DESIGN.md section 5 / C01",
         "not_covered": [
-            "'a rejected pair never reaches the authenticator / the returned id is the rp.id of the CTAP request': "
-            "dataflow inside Client::register / authenticate (serde_json / cbor! / ciborium code)",
+            "'a rejected pair never reaches the authenticator / the effective RP ID is the one used' IS decided by unit clt on the "
+            "real Client::register / authenticate bodies, over trusted signatures of what they call (assert_domain itself: unit rpid)",
             "Url parsing (origin.domain() / scheme() are assumed accessors); idna::domain_to_ascii is an assumed dependency",
             "that the default provider computes the registrable domain correctly (C10)",
         ],
     },
     "C02": {
-        "units": ["cer"], "kani_complete": [], "kani_bounded_quick": ["choose_alg"], "kani_bounded_thorough": [],
+        "units": ["cer", "clt"], "kani_complete": [], "kani_bounded_quick": ["choose_alg"], "kani_bounded_thorough": [],
         "design_ref": "DESIGN.md section 5 / C02",
         "not_covered": [
-            "Client::register: client data JSON, base64url challenge, attestation object CBOR, byte-identical "
-            "authenticator data copies, DER vs COSE key, 'valid P-256 point' (serde / ciborium / p256 code)",
+            "Client::register's dataflow is decided by unit clt (client data fields, request assembly, both authenticator-data copies "
+            "come from the same bytes, id = base64url(rawId), algorithm number); NOT covered: what serde_json / base64url / ciborium / "
+            "public_key_der_from_cose_key / Origin's Display produce (uninterpreted functions), 'valid P-256 point', the constant members "
+            "of the attestation object (rule R22 drops them)",
             "choose_algorithm is proved ('first supported entry') over a trusted model of slice::Iter::find (rule R19); "
             "the bounded Kani harness K-CHOOSE-ALG checks the same statement on the compiled crate",
-            "the client-side default algorithm list",
+            "the client-side default algorithm list is proved to be [ES256, RS256] and to be used exactly when the request's list is empty",
         ],
     },
     "C06": {
@@ -76,25 +78,27 @@ PROPS = {
         ],
     },
     "C03": {
-        "units": ["cer"], "kani_complete": [], "kani_bounded_quick": [], "kani_bounded_thorough": [],
+        "units": ["cer", "clt"], "kani_complete": [], "kani_bounded_quick": [], "kani_bounded_thorough": [],
         "design_ref": "DESIGN.md section 5 / C03",
         "not_covered": [
             "that the ECDSA signature verifies under the registered public key: p256 is an assumed dependency "
             "(spec_sign is an uninterpreted function of the stored COSE key and the message)",
-            "Client::authenticate (client data JSON, id / rawId strings): serde_json / ciborium code",
+            "Client::authenticate's dataflow is decided by unit clt (client data fields, request assembly incl. the allow list as given, "
+            "id = base64url(rawId), user handle, NoCredentials -> CredentialNotFound); NOT covered: what serde_json / base64url / Origin's "
+            "Display produce (uninterpreted functions of their arguments)",
             "the exact byte encoding of authenticator data (spec_ad_bytes is uninterpreted here; see C12)",
         ],
     },
     "C04": {
-        "units": ["cer"], "kani_complete": [], "kani_bounded_quick": [], "kani_bounded_thorough": [],
+        "units": ["cer", "clt"], "kani_complete": [], "kani_bounded_quick": [], "kani_bounded_thorough": [],
         "design_ref": "DESIGN.md section 5 / C04",
         "not_covered": [
-            "Client mapping of userVerification to the uv option (one expression inside register / authenticate)",
+            "the client mapping of userVerification to the uv option is decided by unit clt (both ceremonies)",
             "user-validation implementations themselves (the trait contract is 'what was reported')",
         ],
     },
     "C05": {
-        "units": ["cer"], "kani_complete": [], "kani_bounded_quick": [], "kani_bounded_thorough": [],
+        "units": ["cer", "clt"], "kani_complete": [], "kani_bounded_quick": [], "kani_bounded_thorough": [],
         "design_ref": "DESIGN.md section 5 / C05",
         "not_covered": [
             "the stores shipped with the library (MemoryStore, Option<Passkey>, lock wrappers): iterator/closure "
@@ -119,7 +123,7 @@ PROPS = {
         ],
     },
     "C09": {
-        "units": ["cer", "cli"], "kani_complete": [], "kani_bounded_quick": ["prf_salt"], "kani_bounded_thorough": [],
+        "units": ["cer", "cli", "clt"], "kani_complete": [], "kani_bounded_quick": ["prf_salt"], "kani_bounded_thorough": [],
         "design_ref": "DESIGN.md section 5 / C09",
         "not_covered": [
             "make_salt (iterator chain): the salt prefix is an assumed contract in the Verus unit; it is checked by the bounded Kani family K-PRF-SALT (inputs of 0, 1, 5 bytes) on the real source file",
@@ -143,10 +147,10 @@ PROPS = {
         ],
     },
     "C11": {
-        "units": ["cer", "cli"], "kani_complete": [], "kani_bounded_quick": [], "kani_bounded_thorough": [],
+        "units": ["cer", "cli", "clt"], "kani_complete": [], "kani_bounded_quick": [], "kani_bounded_thorough": [],
         "design_ref": "DESIGN.md section 5 / C11",
         "not_covered": [
-            "the dataflow inside Client::register that passes the same rk to the authenticator and to credProps",
+            "the dataflow inside Client::register that passes the same rk to the authenticator and to credProps is decided by unit clt (map_rk itself and the credProps output: unit cli)",
         ],
     },
     "C12": {
